@@ -471,12 +471,131 @@ func runC12CloseVsFlush(transport string, r *rep.Report) (key, msg string, held 
 	return
 }
 
+// runC12CloseDuringUpgrade: Close(false) with a packet buffered on a polling session whose client
+// has stopped polling because an upgrade is in progress (probe answered); the client then sends the
+// upgrade packet.  The buffered packet must reach the client - over the new transport - before the
+// teardown, and the session must close with 'forced close'.
+func runC12CloseDuringUpgrade(target string, nBuf int, r *rep.Report) (key, msg string) {
+	rig.Bubble(r.T(), func() {
+		so := &config.ServerOptions{}
+		so.SetTransports(types.NewSet("polling", "websocket", "webtransport"))
+		so.SetPingInterval(25 * time.Second)
+		so.SetPingTimeout(20 * time.Second)
+		w := rig.NewWorld(rig.Options{Server: so})
+		defer w.Finish()
+		cl, err := w.Connect(rig.ClientCfg{Rev: 4, Transport: "polling"})
+		rig.Wait()
+		sock := w.Socket(0)
+		if err != nil || sock == nil {
+			key, msg = "c12-handshake-failed", fmt.Sprint(err)
+			return
+		}
+		sid := sock.Id()
+		// the client is not polling (a conformant client pauses polling once the probe succeeded)
+		cand := w.Candidate(sid, 4)
+		var write func(bool, []byte) error
+		var read func() (refcodec.Packet, error)
+		if target == "websocket" {
+			if e := cand.DialCandidateWS(); e != nil {
+				key, msg = "c12-handshake-failed", e.Error()
+				return
+			}
+			write = cand.WSWriteRaw
+			read = func() (refcodec.Packet, error) {
+				mt, d, e := cand.WS.ReadMessage()
+				if e != nil {
+					return refcodec.Packet{}, e
+				}
+				return refcodec.DecodeFrame(4, mt == 2, d)
+			}
+		} else {
+			if e := cand.OpenCandidateWT(); e != nil {
+				key, msg = "c12-handshake-failed", e.Error()
+				return
+			}
+			write = cand.WTWriteRaw
+			read = func() (refcodec.Packet, error) {
+				mt, d, e := cand.WT.ReadMessage()
+				if e != nil {
+					return refcodec.Packet{}, e
+				}
+				return refcodec.DecodeFrame(4, mt == 2, d)
+			}
+		}
+		time.Sleep(time.Millisecond)
+		write(false, []byte("2probe"))
+		p, e := read()
+		if e != nil || p.Type != refcodec.Pong {
+			r.Inconclusive(fmt.Sprintf("close-during-upgrade: no probe pong (%v %v)", p, e))
+			return
+		}
+		var sent []string
+		for i := 0; i < nBuf; i++ {
+			m := fmt.Sprintf("m%d", i)
+			sent = append(sent, m)
+			sock.Send(types.NewStringBufferString(m), nil, nil)
+		}
+		sock.Close(false)
+		rig.Wait()
+		if sock.ReadyState() != "closing" {
+			r.Inconclusive("close-during-upgrade: session is " + sock.ReadyState() + " after Close(false) with buffered packets and no poll")
+			return
+		}
+		write(false, []byte("5"))
+		var got []string
+		done := make(chan struct{})
+		go func() {
+			defer close(done)
+			for {
+				p, e := read()
+				if e != nil || p.Type == refcodec.Close {
+					return
+				}
+				if p.Type == refcodec.Message {
+					got = append(got, string(p.Data))
+				}
+			}
+		}()
+		time.Sleep(2 * time.Second)
+		rig.Wait()
+		select {
+		case <-done:
+		default:
+			key, msg = "c12-silent-client-never-closed", fmt.Sprintf("Close(false) with %d buffered packets, then the upgrade to %s completes: two seconds later the new transport is still open (session %s)", nBuf, target, sock.ReadyState())
+			return
+		}
+		if strings.Join(got, ",") != strings.Join(sent, ",") {
+			key, msg = "c12-packets-lost-on-graceful-close:upgrade-"+target, fmt.Sprintf("Close(false) with %v buffered while an upgrade to %s is in progress; the client completed the upgrade and received %v before the teardown (session %s, close events %v)", sent, target, got, sock.ReadyState(), w.Tap.Of(sid, "close"))
+			return
+		}
+		ev := w.Tap.Of(sid, "close")
+		if len(ev) != 1 || ev[0].Str != "forced close" {
+			key, msg = "c12-close-reason", fmt.Sprintf("graceful close during an upgrade to %s: close events %v", target, ev)
+		}
+		cl.Stop()
+	})
+	return
+}
+
 func TestC12(t *testing.T) {
 	r := rep.New(t, "C12")
 	defer r.Flush()
 	r.Rule("PRNG cases: graceful Close(false) with 0-4 accepted-but-unsent packets on polling (poll pending or absent), WebSocket and WebTransport, optionally with the transport's writer goroutine held at *.send.start while Close runs; silent client (bounded close time on virtual time); a pending poll while the session closes by each cause (incl. the client's own close packet); Server.Close and HttpServer.Close with 1-20 mixed sessions, buffered packets, sessions already waiting in a graceful close, and an upgrade in progress; oracle: all accepted messages before the close packet/teardown, reason 'forced close', close within max(30 s, PI+PT)+PT, pending poll answered 200 with close/noop, exactly one close event per session and an empty table after shutdown; distinct = case signature")
 	if r.Lane == 1%r.Lanes {
 		quicClose(r, 12, r.N(8, 320), true)
+	}
+	if r.Lane == 3%r.Lanes {
+		for k := 0; k < r.N(8, 400); k++ {
+			for _, target := range []string{"websocket", "webtransport"} {
+				nb := 1 + k%3
+				key, msg := runC12CloseDuringUpgrade(target, nb, r)
+				r.Case(fmt.Sprintf("close-during-upgrade/%s/%d", target, nb), true)
+				r.Obs("graceful_closes_during_upgrade", 1)
+				if key != "" {
+					r.Violation(key, msg, map[string]any{"lane": "close-during-upgrade", "target": target, "buffered": nb})
+				}
+			}
+		}
 	}
 	if r.Lane == 2%r.Lanes {
 		for k := 0; k < r.N(8, 400); k++ {
